@@ -64,11 +64,17 @@ def create_branch(job: CreateBranchJob):
 
     # do not allow recreating a previously existing identical branch
     # (unless archive tag is manually removed)
-    if new_branch.version in repo.cmd('git tag').split('\n')[:-1]:
+    tags = repo.cmd('git tag').split('\n')[:-1]
+    archive_tag = new_branch.version
+    if (isinstance(new_branch, HotfixBranch) and
+            archive_tag + '.archived_hotfix_branch' in tags):
+        # delete_branch archives a hotfix branch under this name
+        archive_tag = archive_tag + '.archived_hotfix_branch'
+    if archive_tag in tags:
         raise exceptions.JobFailure('Cannot create branch %r because there is '
                                     'already an archive tag %r in the '
                                     'repository.' %
-                                    (new_branch, new_branch.version))
+                                    (new_branch, archive_tag))
 
     cascade = BranchCascade()
     cascade.build(job.git.repo)
